@@ -14,6 +14,19 @@ def hook_commits():
     return [l.split()[0] for l in out.splitlines() if "verif hook" in l]
 
 CHECKS = {
+ "C10": dict(cat="exploration", design="DESIGN.md section 6 C10",
+   text="Single-device histories with re-keying on both backends, all ciphers and KDFs; monitors: nonce multiset over every AEAD blob ever stored, after every step; fault enumeration on stored blobs at the end: every blob decrypts under the folder key, 14 mutations per blob (nonce / ciphertext / tag bit flips, truncation, extension, tag removal, swaps with another blob's nonce or ciphertext) must fail; other folders' passwords must not verify, same password + fresh salt must not decrypt; stored bytes flipped on disk / in sqlite columns and read back through the public API after a restart must yield an error.",
+   note="X25519 shared folders are not generated. Nonce reuse is detected as 'same nonce, different ciphertext' (identical (nonce, ciphertext) pairs are legitimate copies of one encryption). Sampling only.",
+   tech="deterministic simulation + stored-byte fault enumeration (bit flips, structural edits) with error-or-value oracle"),
+ "C12": dict(cat="exploration", design="DESIGN.md section 6 C12",
+   text="Single-device histories (flags, renames, descriptions, deletes) interleaved with compact_folder / compact_account / change_folder_password / change_account_password / change_cipher in any order and repetition, with restarts: data unchanged, log == one creation event + one per live secret, old password dead / new password works (also from a fresh instance), no stored blob decrypts under the old derived key, replay == served == mirror.",
+   note="Raw free pages inside the sqlite file are not inspected (logical blobs only). Sampling only.",
+   tech="deterministic simulation: seeded histories with re-key operations vs model, old-key decryption attempts on all stored blobs"),
+ "C16": dict(cat="fault_enumeration", design="DESIGN.md section 6 C16",
+   text="Accounts produced by seeded histories on both backends: the integrity report must be clean and complete on the untouched account; then single content bytes of stored vault rows (meta / secret blobs) and event records (payload, commit hash) are flipped one at a time (file bytes / sqlite columns) and the report must contain a failure for the affected folder; the concurrent report runs with concurrency in {1,2,8} and must terminate.",
+   note="Positions are sampled per run (a few per region), not every byte; external file blobs and removals of whole vault/log files are not yet mutated. Sampling over accounts, enumeration over regions.",
+   tech="deterministic simulation + stored-byte fault injection with report-must-flag oracle"),
+
  "C02": dict(cat="exploration", design="DESIGN.md section 6 C02",
    text="2-3 simulated devices and the real server: after every step on every device, for every folder, decrypt(replay of the persisted event log) == folder served by the account == decrypt(persisted vault mirror) (name, flags, description, ids, meta, values), plus replay-until-head. Histories mix local edits with checked merges, auto merges (same ids edited on both sides), force merges and compaction, on both backends.",
    note="Replay-until-commit is checked at the head commit only (earlier commits are covered indirectly because the check runs after every step). Known findings listed in known_findings.json are reported as KNOWN-FINDING. Sampling only.",
